@@ -496,8 +496,6 @@ def run(c):
         for s in incon:
             if (s.get("why") or "").startswith("harness"):
                 raise vlib.Inconclusive("scenario %s: %s" % (s["id"], s["why"]))
-        if len(incon) > max(3, len(scen) // 20):
-            raise vlib.Inconclusive("%d of %d scenarios inconclusive, e.g. %s: %s" % (len(incon), len(scen), incon[0]["id"], incon[0].get("why")))
 
         # ---- 5. trace validation of every recorded trace
         val_sch = pool.submit(validate_parallel, c, "schedules", sch, work, 1 if q else 4) if sch else None
@@ -548,6 +546,9 @@ def run(c):
         flagged = [s for s in scen if (s.get("findings") or s["uid"] in rej or s["uid"] in inv)]
         c.set("scenarios_flagged", len(flagged))
         report(c, binp, work, flagged, inv, rej, set(acc))
+        if not c.violations and len(incon) > max(3, len(scen) // 20):
+            # bounded waits that expire are never a verdict; too many of them means the run says little
+            raise vlib.Inconclusive("%d of %d scenarios inconclusive, e.g. %s: %s" % (len(incon), len(scen), incon[0]["id"], incon[0].get("why")))
         for s in rnd[:2] + sch[:2]:
             c.sample(dict(id=s["id"], kind=s["kind"], params=s["params"], status=s["status"],
                           batches=[(b["ep"], b["ids"]) for b in s["observation"]["batches"]][:12],
